@@ -32,11 +32,43 @@ type pauseStep struct {
 	HoldYld  bool `json:"hold_yld"`  // Gosched while holding (lets a leaked handler run at GOMAXPROCS=1)
 }
 
+// runCall is one call of the run plan: RunUntil(B) or Run, issued after a
+// drawn busy delay.
+type runCall struct {
+	Until bool   `json:"until,omitempty"`
+	B     uint64 `json:"b,omitempty"`
+	Delay int    `json:"delay,omitempty"`
+	Yld   int    `json:"yld,omitempty"`
+}
+
 type c05Case struct {
 	Prog     program     `json:"prog"`
 	Parallel bool        `json:"parallel"`
 	Procs    []int       `json:"procs"`
 	Plan     []pauseStep `json:"plan"`
+	// Runners is the run plan: each inner list is issued in order by its own
+	// goroutine on the same engine; calls of different goroutines may overlap
+	// (they serialise on the SerialEngine's run lock). The last call of
+	// runner 0 is always Run, which returns only once no event remains, so the
+	// program completes whatever the interleaving. Empty = one goroutine, one
+	// Run. The ParallelEngine gets exactly that (no RunUntil, no run lock).
+	Runners [][]runCall `json:"runners,omitempty"`
+	// Gate: the pauser issues its first Pause only after every runner has
+	// invoked its first call and some handler body has been entered (pure
+	// synchronisation on events that are certain to happen: runner 0 ends with
+	// Run and the program has >= 1 event).
+	Gate bool `json:"gate,omitempty"`
+}
+
+// callObs is one executed call of the run plan.
+type callObs struct {
+	Runner int   `json:"runner"`
+	Invoke int64 `json:"invoke"` // stamp taken just before the call
+	Return int64 `json:"return"` // stamp taken just after it returned
+}
+
+type untilRunner interface {
+	RunUntil(t timing.VTimeInPicoSec) error
 }
 
 type pauseObs struct {
@@ -50,6 +82,7 @@ type pauseObs struct {
 type c05Run struct {
 	hist     history
 	obs      []pauseObs
+	calls    []callObs
 	anomaly  []string
 	err      error
 	panicked bool
@@ -65,19 +98,63 @@ func runPaused(c *c05Case, procs int) (out c05Run) {
 		r := newStampRec(&c.Prog, c.Parallel)
 		start := make(chan struct{})
 		var wg sync.WaitGroup
-		wg.Add(2)
-		go func() {
-			defer wg.Done()
-			<-start
-			ok, sig, msg := kit.Guard(func() { out.err = r.eng.Run() })
-			if !ok {
-				out.panicked, out.sig, out.msg = true, sig, msg
-			}
-		}()
+		runners := c.Runners
+		if len(runners) == 0 || c.Parallel {
+			runners = [][]runCall{{{}}}
+		}
+		var mu sync.Mutex // guards out.err/out.panicked/out.calls while runners are alive
+		var firstInvoked atomic.Int32
+		for ri, plan := range runners {
+			wg.Add(1)
+			go func(ri int, plan []runCall) {
+				defer wg.Done()
+				<-start
+				for ci, rc := range plan {
+					spin(rc.Delay)
+					for i := 0; i < rc.Yld; i++ {
+						runtime.Gosched()
+					}
+					var err error
+					co := callObs{Runner: ri, Invoke: r.clk.Add(1)}
+					if ci == 0 {
+						firstInvoked.Add(1)
+					}
+					ok, sig, msg := kit.Guard(func() {
+						if rc.Until {
+							err = r.eng.(untilRunner).RunUntil(timing.VTimeInPicoSec(rc.B))
+						} else {
+							err = r.eng.Run()
+						}
+					})
+					co.Return = r.clk.Add(1)
+					mu.Lock()
+					out.calls = append(out.calls, co)
+					if err != nil && out.err == nil {
+						out.err = err
+					}
+					if !ok && !out.panicked {
+						out.panicked, out.sig, out.msg = true, sig, msg
+					}
+					mu.Unlock()
+					if !ok {
+						return
+					}
+				}
+			}(ri, plan)
+		}
+		wg.Add(1)
 		obs := make([]pauseObs, 0, len(c.Plan))
 		go func() {
 			defer wg.Done()
 			<-start
+			if c.Gate {
+				for firstInvoked.Load() < int32(len(runners)) || r.handled.Load() == 0 && r.running.Load() == 0 {
+					runtime.Gosched()
+				}
+				for i := 0; i < 4; i++ {
+					runtime.Gosched()
+				}
+			}
 			for _, st := range c.Plan {
 				spin(st.Delay)
 				for i := 0; i < st.DelayYld; i++ {
@@ -138,13 +215,46 @@ func serialLogFromHistory(abs []uint64, h history) []entry {
 	return out
 }
 
+// TestC05GatedOverlap runs first (source order): run plans whose calls are all
+// invoked up front (every runner's first call without delay, at most 2 calls
+// per runner) and a pauser that starts only once the run is under way. This is
+// the overlapping-run-calls class with the start-up coincidences (a run call
+// arriving while a Pause is still waiting) taken out, so that an engine that
+// wedges in those coincidences still gets its quiescence judged here before
+// the unrestricted plans of TestC05.
+func TestC05GatedOverlap(t *testing.T) {
+	c05Check(t, "overlap-gated", true, 800, 6_000)
+}
+
 func TestC05(t *testing.T) {
-	s := kit.Begin(t, "C05", "pause",
+	c05Check(t, "pause", false, 1_000, 8_000)
+}
+
+// c05Violated: an earlier C05 sub-check of this process already reported a
+// violation. The later, less restricted sub-checks are then skipped: the
+// verdict exists, and an engine broken in that way may also wedge (a hang
+// would only delay the report until the driver's watchdog).
+var c05Violated bool
+
+func c05Check(t *testing.T, sub string, gated bool, quick, thorough int) {
+	if c05Violated {
+		t.Skip("an earlier C05 sub-check already reported a violation")
+	}
+	defer func() {
+		if t.Failed() {
+			c05Violated = true
+		}
+	}()
+	shape := "serial: a run plan of 1..3 goroutines each issuing 1..4 RunUntil(b)/Run calls with drawn delays, pauser starts at once; "
+	if gated {
+		shape = "serial engine only: a run plan of 2..3 goroutines each issuing 1..2 RunUntil(b)/Run calls, first calls without delay, the pauser's first Pause gated on 'all first calls invoked and a handler entered'; "
+	}
+	s := kit.Begin(t, "C05", sub, shape+
 		"C04's program generator (1..60 events; handler bodies set an atomic running counter, spin/yield, schedule children, bump a handled counter, clear running) on the "+
-			"SerialEngine or ParallelEngine (drawn), Run in one goroutine, a pauser goroutine executing 1..6 drawn (delay-spin, Pause, hold-and-sample, Continue) steps; two drawn "+
-			"GOMAXPROCS values; -race. Oracle: from the stamp history, no handler body overlaps any window (Pause returned, Continue called) and running is never sampled set; after the last "+
-			"Continue the run completes with the C01 reference log (serial) / the C04 invariants (parallel). Non-trivial: some Pause returned after the first and before the last "+
-			"handler body (0 < handled < N at Pause) or caught a handler in flight")
+		"SerialEngine or ParallelEngine (drawn); run plan calls go to the same engine (boundaries at/just below/just above reference event times; calls overlap and serialise on the run lock; runner 0 ends with Run), parallel: one Run; a pauser goroutine executing 1..6 drawn (delay-spin, Pause, hold-and-sample, Continue) steps; two drawn "+
+		"GOMAXPROCS values; -race. Oracle: from the stamp history, no handler body overlaps any window (Pause returned, Continue called) and running is never sampled set; after the last "+
+		"Continue the run completes with the C01 reference log (serial) / the C04 invariants (parallel). Non-trivial: some Pause returned after the first and before the last "+
+		"handler body (0 < handled < N at Pause) or caught a handler in flight")
 	defer s.End()
 	s.Assume("Pause/Continue alternate strictly and are never called from a handler (ParallelEngine.Pause is a plain mutex; monitoring2 is the only caller in /repo)")
 	s.Assume("sound but incomplete: only pause moments that the drawn delays and the Go scheduler produced are explored; a hang is left to the driver's watchdog (inconclusive), never reported as a violation")
@@ -159,6 +269,15 @@ func TestC05(t *testing.T) {
 		if !ok || len(c.Procs) == 0 {
 			f.Fatalf("harness: malformed case")
 		}
+		if len(c.Runners) > 0 {
+			if c.Parallel {
+				f.Fatalf("harness: run plans are only generated for the serial engine")
+			}
+			r0 := c.Runners[0]
+			if len(r0) == 0 || r0[len(r0)-1].Until {
+				f.Fatalf("harness: the last call of runner 0 must be Run")
+			}
+		}
 		timing.ResetIDGenerator()
 		ref := refSchedule(p)
 		n := int64(len(p.Nodes))
@@ -167,6 +286,7 @@ func TestC05(t *testing.T) {
 			eng = "parallel"
 		}
 		landed, inflight, knownHit := false, false, false
+		overlapCalls, takeover, pauseInTakeover := false, false, false
 		for _, procs := range c.Procs {
 			out := runPaused(&c, procs)
 			if out.panicked {
@@ -182,6 +302,30 @@ func TestC05(t *testing.T) {
 				s.Fail(f, c, eng+":"+sg, "GOMAXPROCS=%d: %s", procs, m)
 				return
 			}
+			// run-plan classes, judged from stamps: call x was invoked while a call
+			// y of another goroutine was still inside (x queued on the run lock or
+			// got in first); "takeover" = some handler body entered after y had
+			// returned and before x returned, i.e. events were handled by a call
+			// that had overlapped an earlier one.
+			for _, x := range out.calls {
+				for _, y := range out.calls {
+					if x.Runner == y.Runner || !(y.Invoke < x.Invoke && x.Invoke < y.Return) {
+						continue
+					}
+					overlapCalls = true
+					for nd := range out.hist.Enter {
+						if e := out.hist.Enter[nd]; e > y.Return && e > x.Invoke && e < x.Return {
+							takeover = true
+							for _, o := range out.obs {
+								if o.StampP > y.Return && o.StampP < x.Return {
+									pauseInTakeover = true
+								}
+							}
+							break
+						}
+					}
+				}
+			}
 			// quiescence of every pause window
 			for i, o := range out.obs {
 				act := windowActivity(out.hist, o)
@@ -193,7 +337,8 @@ func TestC05(t *testing.T) {
 				}
 				inflight = true
 				desc := fmt.Sprintf("GOMAXPROCS=%d, %s engine, pause %d: Pause returned at stamp %d, Continue called at stamp %d; handler bodies executing inside that window: nodes %v "+
-					"(enter/exit %v); running sampled set %d times; handled counter %d -> %d", procs, eng, i, o.StampP, o.StampC, act, stampsOf(out.hist, act), o.RunningSeen, o.H0, o.H1)
+					"(enter/exit %v); running sampled set %d times; handled counter %d -> %d; run calls (runner, invoke, return) %v", procs, eng, i, o.StampP, o.StampC, act,
+					stampsOf(out.hist, act), o.RunningSeen, o.H0, o.H1, out.calls)
 				if c.Parallel {
 					s.Fail(f, c, sigParallelPause, "%s", desc)
 					return
@@ -230,11 +375,23 @@ func TestC05(t *testing.T) {
 		if knownHit {
 			cls = append(cls, "known:serial-pause")
 		}
+		if len(c.Runners) > 1 {
+			cls = append(cls, "multi-runner-plan")
+		}
+		if overlapCalls {
+			cls = append(cls, "overlapping-run-calls")
+		}
+		if takeover {
+			cls = append(cls, "overlapped-call-handled-events")
+		}
+		if pauseInTakeover {
+			cls = append(cls, "pause-during-overlapped-call")
+		}
 		s.Note(c, landed || inflight, cls...)
 	}
 
 	var c c05Case
-	if ok, err := kit.LoadReplay("C05", "pause", &c); ok {
+	if ok, err := kit.LoadReplay("C05", sub, &c); ok {
 		if err != nil {
 			t.Fatal(err)
 		}
@@ -246,10 +403,11 @@ func TestC05(t *testing.T) {
 		t.Skip()
 	}
 
-	kit.SetChecks(2_000, 10_000)
+	kit.SetChecks(quick, thorough)
 	rapid.Check(t, func(rt *rapid.T) {
 		var c c05Case
-		c.Parallel = rapid.Bool().Draw(rt, "parallel")
+		c.Gate = gated
+		c.Parallel = !gated && rapid.Bool().Draw(rt, "parallel")
 		limit := uint64(maxTime)
 		if c.Parallel {
 			limit = parLimit
@@ -258,6 +416,9 @@ func TestC05(t *testing.T) {
 		c.Procs = []int{
 			rapid.SampledFrom([]int{1, 2, 3, 4, 8, 16}).Draw(rt, "procs0"),
 			rapid.SampledFrom([]int{1, 2, 3, 4, 8, 16}).Draw(rt, "procs1"),
+		}
+		if !c.Parallel {
+			c.Runners = genRunPlan(rt, refSchedule(&c.Prog), gated)
 		}
 		k := rapid.IntRange(1, 6).Draw(rt, "npauses")
 		for i := 0; i < k; i++ {
@@ -343,3 +504,55 @@ func TestC05Known_SerialPauseMidHandler(t *testing.T) {
 type handlerFunc func(timing.Event) error
 
 func (f handlerFunc) Handle(e timing.Event) error { return f(e) }
+
+// genRunPlan draws 1..3 runner goroutines with 1..4 calls each. Boundaries are
+// drawn relative to the program's reference event times. Runner 0 ends with
+// Run. (RunUntil with a boundary below the engine's current time, which can
+// arise when calls of different goroutines interleave, returns at once: every
+// queued event is later.)
+func genRunPlan(rt *rapid.T, ref []entry, gated bool) [][]runCall {
+	ts := distinctTimes(ref)
+	nr := rapid.SampledFrom([]int{1, 2, 2, 3, 3}).Draw(rt, "nrunners")
+	maxCalls := 4
+	if gated {
+		nr = rapid.IntRange(2, 3).Draw(rt, "grunners")
+		maxCalls = 2
+	}
+	plan := make([][]runCall, nr)
+	for ri := range plan {
+		nc := rapid.IntRange(1, maxCalls).Draw(rt, "ncalls")
+		for ci := 0; ci < nc; ci++ {
+			var rc runCall
+			rc.Until = rapid.IntRange(0, 3).Draw(rt, "until") != 0
+			if rc.Until {
+				b := ts[rapid.IntRange(0, len(ts)-1).Draw(rt, "bidx")]
+				switch rapid.IntRange(0, 3).Draw(rt, "bkind") {
+				case 0:
+					if b > 0 {
+						b--
+					}
+				case 1:
+					if b < maxTime {
+						b++
+					}
+				}
+				rc.B = b
+			}
+			switch rapid.IntRange(0, 2).Draw(rt, "rdelayclass") {
+			case 0:
+			case 1:
+				rc.Delay = rapid.IntRange(0, 300).Draw(rt, "rdelay")
+			default:
+				rc.Delay = rapid.IntRange(0, 6000).Draw(rt, "rdelay")
+			}
+			rc.Yld = rapid.IntRange(0, 2).Draw(rt, "ryld")
+			if gated && ci == 0 {
+				rc.Delay, rc.Yld = 0, 0
+			}
+			plan[ri] = append(plan[ri], rc)
+		}
+	}
+	last := &plan[0][len(plan[0])-1]
+	last.Until, last.B = false, 0
+	return plan
+}
